@@ -46,6 +46,8 @@ type Style struct {
 	NoteNextLine     bool   // note-only annotations of values that no comma follows go to the next line (every other one)
 	BlankLines       bool   // blank lines between properties
 	SpaceBeforeColon bool
+	ColonGap         int               // >0: what stands between a key and its colon: 1 a tab, 2 a line break and the indentation, 3 two blanks
+	TightAnn         bool              // no blank between a value and the annotation that follows it
 	RuleOrder        func(n int) []int // permutation of rule indexes (nil = as written)
 	// Per-annotation override hook (nil = use the fields above)
 	Pick func(label string, n int) int
@@ -200,7 +202,9 @@ func (p *printer) annotation(n *ref.SNode, level int) {
 		}
 		return
 	}
-	p.w(" ")
+	if !p.st.TightAnn {
+		p.w(" ")
+	}
 	n.AnnBegin = len(p.b)
 	multi := p.st.MultiLine
 	if p.st.MixedAnn > 0 {
@@ -432,6 +436,15 @@ func (p *printer) node(n *ref.SNode, level int, comma bool) {
 			pr.KeyEnd = len(p.b) - 1
 			if p.st.SpaceBeforeColon {
 				p.w(" ")
+			}
+			switch p.st.ColonGap {
+			case 1:
+				p.w("\t")
+			case 2:
+				p.w(p.st.NL)
+				p.indent(level + 2)
+			case 3:
+				p.w("  ")
 			}
 			p.w(": ")
 			p.node(pr.Val, level+1, i < len(n.Props)-1)
